@@ -126,6 +126,9 @@ pub enum Via
 {
     Commands,
     Direct,
+    /// the op is performed by a plain Bevy system during `app.update()`: slot 0 = `Update`, 1 = `Last` before the
+    /// auto-despawn collection, 2 = between the collection and the removal/despawn poll, 3 = after the poll
+    System(u8),
 }
 
 #[derive(Debug, Clone, PartialEq, Eq, Hash, Serialize, Deserialize)]
@@ -135,6 +138,9 @@ pub struct TopOp
     pub via: Via,
     /// run the end-of-frame work (GC, poll, GC) after this op
     pub settle: bool,
+    /// do the end-of-frame work by running the whole frame (`app.update()`: the plugin's own `Last` systems)
+    #[serde(default)]
+    pub update: bool,
 }
 
 #[derive(Debug, Clone, PartialEq, Eq, Hash, Serialize, Deserialize, Default)]
@@ -252,6 +258,10 @@ pub struct Profile
     pub p_self: u8,
     /// probability that the end-of-frame work is *not* run after a top-level op
     pub p_no_settle: u8,
+    /// probability that a top-level op is performed by a plain Bevy system inside `app.update()`
+    pub p_via_system: u8,
+    /// probability that the end-of-frame work is done by `app.update()` instead of calling the public functions
+    pub p_update: u8,
     /// probability that a bundle names one of its triggers twice
     pub p_dup_key: u8,
     /// concentrate events on few types/entities: number of event types and entities actually used by ops
@@ -287,9 +297,117 @@ impl Profile
             p_comp: 150,
             p_self: 60,
             p_no_settle: 90,
+            p_via_system: 40,
+            p_update: 100,
             p_dup_key: 16,
             hot_entities: 3,
         }
+    }
+}
+
+impl Profile
+{
+    /// Per-property weights: make the property's non-trivial class the common case.
+    pub fn for_prop(prop: &str) -> Self
+    {
+        let mut p = Profile::general();
+        //                      run sev bc  eev ins mut tmu rem rmu rtr dEn dSy gc pol rPo rFr rev prb
+        match prop
+        {
+            "C01" =>
+            {
+                p.name = "dispatch";
+                p.w_top =    [2,  2,  10, 10, 8,  8,  4,  3,  6,  4,  3,  2,  1, 1,  12, 12, 5,  1];
+                p.w_script = [4,  3,  10, 10, 8,  8,  4,  3,  6,  3,  3,  2,  1, 1,  8,  8,  6,  1];
+                p.max_init_regs = 10;
+                p.max_bundle = 4;
+            }
+            "C02" | "C09" | "C12" | "C03" | "C13" =>
+            {
+                p.name = "recursion";
+                p.w_top =    [10, 10, 10, 8,  4,  5,  2,  3,  4,  2,  2,  2,  1, 1,  8,  5,  2,  1];
+                p.w_script = [14, 16, 12, 10, 4,  6,  2,  3,  4,  2,  2,  3,  1, 1,  3,  2,  2,  2];
+                p.p_self = 110;
+                p.max_scripts = 4;
+                p.max_script_ops = 6;
+                p.max_systems = 5;
+                p.hot_entities = 2;
+                if prop == "C13" { p.max_top = 18; p.w_shape = [8, 5, 3, 1, 3]; }
+                if prop == "C03" { p.w_script[OPK_REMOVE] = 6; p.w_script[OPK_DESPAWN_ENT] = 4; p.w_key = [6, 6, 6, 4, 5, 7, 3, 5, 5, 3, 5]; }
+            }
+            "C04" =>
+            {
+                p.name = "probes";
+                p.w_top =    [6,  8,  10, 10, 6,  6,  3,  4,  4,  2,  3,  2,  1, 1,  8,  6,  3,  6];
+                p.w_script = [8,  8,  8,  8,  5,  5,  2,  4,  3,  2,  3,  2,  1, 1,  3,  2,  3,  16];
+                p.w_shape = [8, 8, 2, 1, 1];
+                p.w_result = [5, 4, 2];
+                p.p_err = 70;
+                p.p_take_twice = 80;
+            }
+            "C05" =>
+            {
+                p.name = "payloads";
+                p.w_top =    [3,  10, 12, 12, 3,  3,  1,  2,  2,  1,  5,  6,  2, 1,  10, 8,  5,  1];
+                p.w_script = [5,  12, 12, 12, 3,  3,  1,  2,  2,  1,  5,  7,  2, 1,  4,  3,  6,  1];
+                p.w_key = [10, 8, 9, 2, 2, 2, 1, 1, 1, 2, 2];
+                p.w_shape = [8, 4, 4, 3, 1];
+                p.p_self = 90;
+            }
+            "C06" =>
+            {
+                p.name = "revocation";
+                p.w_top =    [2,  2,  8,  8,  6,  6,  3,  3,  5,  3,  3,  1,  1, 1,  8,  14, 12, 1];
+                p.w_script = [4,  3,  10, 10, 7,  7,  3,  3,  5,  3,  2,  1,  1, 1,  3,  8,  16, 1];
+                p.w_regmode = [2, 1, 8];
+                p.w_fresh_api = [1, 1, 8, 2];
+                p.max_init_regs = 10;
+                p.max_bundle = 4;
+                p.hot_entities = 2;
+            }
+            "C07" | "C15" =>
+            {
+                p.name = "lifetime";
+                p.w_top =    [3,  2,  7,  7,  5,  5,  2,  5,  4,  2,  8,  3,  4, 3,  8,  14, 8,  1];
+                p.w_script = [5,  3,  8,  8,  5,  5,  2,  5,  4,  2,  7,  3,  4, 3,  3,  6,  8,  1];
+                p.w_regmode = [2, 5, 5];
+                p.w_key = [4, 3, 5, 3, 3, 4, 4, 4, 4, 3, 8];
+                p.max_bundle = 4;
+                p.hot_entities = 2;
+                if prop == "C15" { p.w_fresh_api = [1, 1, 2, 10]; p.p_dup_key = 40; }
+            }
+            "C08" =>
+            {
+                p.name = "removals";
+                p.w_top =    [3,  2,  4,  4,  10, 3,  1,  14, 2,  1,  10, 2,  2, 5,  8,  8,  3,  1];
+                p.w_script = [5,  3,  5,  5,  10, 3,  1,  14, 2,  1,  9,  2,  2, 5,  3,  3,  3,  1];
+                p.w_key = [2, 2, 2, 2, 2, 12, 2, 2, 10, 2, 10];
+                p.p_no_settle = 150;
+                p.p_via_system = 90;
+                p.p_comp = 220;
+                p.hot_entities = 3;
+            }
+            "C11" =>
+            {
+                p.name = "sequences";
+                p.max_top = 18;
+                p.w_top =    [10, 10, 8,  8,  4,  4,  2,  3,  3,  2,  4,  6,  2, 1,  6,  6,  3,  1];
+                p.w_script = [12, 12, 8,  8,  4,  4,  2,  3,  3,  2,  4,  8,  2, 1,  3,  3,  3,  1];
+                p.p_self = 110;
+                p.w_result = [4, 4, 2];
+                p.p_err = 70;
+            }
+            "C18" =>
+            {
+                p.name = "stale";
+                p.w_top =    [8,  8,  6,  8,  7,  6,  4,  4,  2,  1,  12, 12, 2, 2,  8,  8,  6,  1];
+                p.w_script = [8,  8,  6,  8,  7,  6,  4,  4,  2,  1,  12, 12, 2, 2,  4,  4,  6,  1];
+                p.hot_entities = 2;
+                p.max_entities = 3;
+            }
+            _ => {}
+        }
+        p
     }
 }
 
@@ -527,15 +645,18 @@ pub fn decode(bytes: &[u8], profile: &Profile) -> Program
             let s = d.below(d.n_systems as usize) as u8;
             Op::Register{ target: RegTarget::Pool(s), bundle: d.bundle() }
         };
-        top.push(TopOp{ op, via: Via::Commands, settle: false });
+        top.push(TopOp{ op, via: Via::Commands, settle: false, update: false });
     }
     let n_top = d.below(profile.max_top as usize + 1);
     for _ in 0..n_top
     {
         let op = d.op(true, None, true);
-        let via = if d.chance(profile.p_direct) { Via::Direct } else { Via::Commands };
+        let via = if d.chance(profile.p_direct) { Via::Direct }
+            else if d.chance(profile.p_via_system) { Via::System(d.below(4) as u8) }
+            else { Via::Commands };
         let settle = !d.chance(profile.p_no_settle);
-        top.push(TopOp{ op, via, settle });
+        let update = d.chance(profile.p_update);
+        top.push(TopOp{ op, via, settle, update });
     }
     Program{ setup, top }
 }
